@@ -140,7 +140,8 @@ class DTDChecker(Checker, CSSCheckMixin):
             lines = l10nValue.splitlines()
             if lnr > len(lines):
                 lnr = len(lines)
-                col = len(lines[lnr - 1])
+                # an empty value has no lines
+                col = len(lines[lnr - 1]) if lines else 0
             else:
                 col = e.getColumnNumber()
                 if lnr == 1:
